@@ -338,20 +338,49 @@ Proof.
 Qed.
 
 (* ================= w_insert ================= *)
-Lemma huhl_plain : forall s p e, h_hl e = 0%N -> handle_update_to_hard_links s p e = s.
-Proof. intros. unfold handle_update_to_hard_links. now rewrite H. Qed.
+(* a plain entry over a plain blob or at a new name leaves the KV store alone *)
+Lemma huhl_plain : forall s p e, h_hl e = 0%N ->
+  (forall ex, nfind s p = Some ex -> h_hl ex = 0%N) -> handle_update_to_hard_links s p e = s.
+Proof.
+  intros s p e H Hold. unfold handle_update_to_hard_links. rewrite H. simpl.
+  destruct (nfind s p) as [ex|] eqn:E; [|reflexivity]. now rewrite (Hold ex eq_refl).
+Qed.
 
-(* a plain entry over a plain blob or at a new name *)
+(* replacing a blob that carries X by a plain one: X becomes pending *)
+Lemma raw_put_drop_inv : forall l s p ex e, InvG l s -> nfind s p = Some ex -> h_hl ex <> 0%N ->
+  h_hl e = 0%N -> InvG (h_hl ex :: l) (raw_put s p e).
+Proof.
+  intros l s p ex e I H Hn He. unfold raw_put. apply (InvG_names l (h_hl ex :: l) s); auto.
+  - apply aput_NoDup; [apply peqb_spec|apply (ig_nd _ _ I)].
+  - intros Y HY. pose proof (cn_put (names s) p e Y (ig_nd _ _ I)) as Hc.
+    fold (nfind s p) in Hc. rewrite H in Hc. simpl in Hc. rewrite (ind_zero_plain e Y He HY) in Hc.
+    unfold ind in Hc. simpl. destruct (N.eqb (h_hl ex) Y); lia.
+  - intros q e' Hq Hd. rewrite (aget_aput _ peqb_spec) in Hq.
+    destruct (HardLink.path_eqb p q); [inversion Hq; subst; assumption|].
+    apply (ig_dir _ _ I q e' Hq Hd).
+Qed.
+
+(* a plain entry at any name: a link id carried by the replaced blob is decremented (the repair) *)
+Lemma w_insert_plain_inv' : forall l s p e, InvG l s -> h_hl e = 0%N -> InvG l (w_insert s p e).
+Proof.
+  intros l s p e I He. unfold w_insert, handle_update_to_hard_links. rewrite He. simpl.
+  destruct (nfind s p) as [ex|] eqn:E.
+  - destruct (N.eqb_spec (h_hl ex) 0) as [Z|Z]; simpl.
+    + apply InvG_raw_put_same; [exact I| |intro; exact He].
+      intros X HX. rewrite E. simpl. now rewrite (ind_zero_plain e X He HX), (ind_zero_plain ex X Z HX).
+    + assert (Hs : raw_put (delete_hard_link s (h_hl ex)) p e = delete_hard_link (raw_put s p e) (h_hl ex)).
+      { unfold delete_hard_link, raw_put, kv_get. simpl.
+        destruct (aget N.eqb (kvs s) (h_hl ex)); [|reflexivity].
+        destruct (h_cnt h - 1 <=? 0)%Z; reflexivity. }
+      rewrite Hs. apply dhl_inv. now apply raw_put_drop_inv.
+  - apply InvG_raw_put_same; [exact I| |intro; exact He].
+    intros X HX. rewrite E. simpl. apply (ind_zero_plain e X He HX).
+Qed.
+
 Lemma w_insert_plain_inv : forall l s p e, InvG l s -> h_hl e = 0%N ->
   (forall ex, nfind s p = Some ex -> h_hl ex = 0%N) ->
   InvG l (w_insert s p e).
-Proof.
-  intros l s p e I He Hold. unfold w_insert. rewrite huhl_plain by assumption.
-  apply InvG_raw_put_same; auto.
-  intros X HX. rewrite (ind_zero_plain e X He HX).
-  destruct (nfind s p) as [ex|] eqn:E; simpl; [|reflexivity].
-  now rewrite (ind_zero_plain ex X (Hold ex eq_refl) HX).
-Qed.
+Proof. intros l s p e I He _. now apply w_insert_plain_inv'. Qed.
 
 Lemma kv_put_nfind : forall s k v q, nfind (kv_put s k v) q = nfind s q.
 Proof. reflexivity. Qed.
